@@ -57,29 +57,52 @@ def rule_yield_filtered(ctx: Ctx, rule: str) -> None:
                    'edge of self._is_excluded(match, is_dir) for the same match; _format_path yields only under _is_unique, keyed '
                    'by the pathlib-normalised path iff self.pathlib; _is_excluded is an any() over npatterns')
     repo = ctx.repo
+    from .common import api_table, tabulate_method
+    from ..symeval import focus, _tag
+    VOC = {'glob:Glob.' + n for n in ('_glob', '_is_excluded', '_format_path', '_get_starting_paths', '_lexists', '_prepend_base', '_glob_dir', '_iter',
+                                       '_is_unique', '_pathlib_norm', '_match_excluded')}
     g = repo.func('glob', 'Glob.glob')
-    q = fq(g)
-    ys = [n for n in walk_no_nested(g.node) if isinstance(n, (ast.Yield, ast.YieldFrom))]
-    ctx.floor(rule, 'yield sites in Glob.glob', len(ys), 4)
-    for i, y in enumerate(ys, 1):
-        v = y.value
-        ok = isinstance(y, ast.YieldFrom) and isinstance(v, ast.Call) and norm_src(v.func) == 'self._format_path' and len(v.args) == 3
-        if not ok:
-            ctx.ob(rule, f'glob:Glob.glob/yield@{i}', False, repo.loc('glob', y), 'yield from self._format_path(…)', norm_src(y)[:70])
-            continue
-        m, d = norm_src(v.args[0]), norm_src(v.args[1])
-        okx = q.guarded(y, f'self._is_excluded({m}, {d})', 'F')
-        okd = norm_src(v.args[2]) == 'dir_only'
-        ctx.ob(rule, f'glob:Glob.glob/yield@{i}', okx and okd, repo.loc('glob', y),
-               f'under not self._is_excluded({m}, {d}); third argument dir_only', f'filtered={okx}, dir_only passed={okd}',
-               witness="glob('**', flags=GLOBSTAR|NEGATE, exclude='*.py') must not return any .py file")
+    _ev, paths = api_table(repo, 'glob', 'Glob.glob', inline=True, no_inline=VOC, max_paths=50000)
+    bad = []
+    n_y = 0
+    for p in paths:
+        focus(p)
+        fmts = {(_tag(e[2][0]), _tag(e[2][1]), _tag(e[2][2])) if len(e[2]) == 3 else None: e for e in p.of('call') if e[1] == 'glob:Glob._format_path'}
+        for y in p.of('yield'):
+            n_y += 1
+            v = y[1]
+            if not (isinstance(v, tuple) and v[0] == 'from' and _tag(v[1]).startswith('glob:Glob._format_path(')):
+                bad.append(f'yields {_tag(v)[:80]} (not through _format_path)')
+                continue
+            hit = [k for k in fmts if k is not None and _tag(v[1]) == f'glob:Glob._format_path({k[0]}, {k[1]}, {k[2]})']
+            if len(hit) != 1:
+                bad.append('yield not tied to one _format_path call')
+                continue
+            m_, d_, x_ = hit[0]
+            if p.decisions.get(f'glob:Glob._is_excluded({m_}, {d_})') is not False:
+                bad.append(f'{m_[:50]} is yielded without asking _is_excluded for it')
+            if x_ not in ('elem(self.pattern)[-1].dir_only', 'False') or (x_ == 'False' and p.decisions.get('elem(self.pattern)') is not False):
+                bad.append(f'dir_only argument is {x_[:50]}')
+    if n_y < 4:
+        raise AnalysisError(f'Glob.glob: only {n_y} yields in the table')
+    ctx.ob(rule, 'glob:Glob.glob/yields-filtered', not bad, repo.loc('glob', g.node),
+           'everything yielded is _format_path(match, is_dir, <dir_only of the last part>) for a match that _is_excluded(match, is_dir) rejected',
+           f'{n_y} yields agree' if not bad else sorted(set(bad))[0][:200], witness="glob('**', flags=GLOBSTAR|NEGATE, exclude='*.py') must not return any .py file")
     fp = repo.func('glob', 'Glob._format_path')
-    qf = fq(fp)
-    ys2 = [n for n in walk_no_nested(fp.node) if isinstance(n, (ast.Yield, ast.YieldFrom))]
-    want = 'self._is_unique(self._pathlib_norm(path) if self.pathlib else path)'
-    ok2 = len(ys2) == 1 and norm_src(ys2[0].value) == 'path' and qf.guarded(ys2[0], want, 'T')
-    ctx.ob(rule, 'glob:Glob._format_path/yield-under-unique', ok2, repo.loc('glob', fp.node), f'if {want}: yield path',
-           '; '.join(sorted(t for t, p in qf.guards(ys2[0]))) if ys2 else 'no yield',
+    _ev, fps = tabulate_method(repo, 'glob', 'Glob._format_path', {}, [Opaque('path'), Opaque('is_dir'), Opaque('dir_only')], inline=True, no_inline=VOC)
+    bad2 = []
+    for p in fps:
+        focus(p)
+        d = p.decisions
+        joined = d.get('dir_only') is True or (d.get('self.mark') is True and d.get('is_dir') is True)
+        out = 'os.path.join(path, self.empty)' if joined else 'path'
+        key = f'glob:Glob._pathlib_norm({out})' if d.get('self.pathlib') else out
+        u = d.get(f'glob:Glob._is_unique({key})')
+        ys2 = [_tag(y[1]) for y in p.of('yield')]
+        if d.get('self.pathlib') is None or u is None or ys2 != ([out] if u else []):
+            bad2.append(f'pathlib={d.get("self.pathlib")} unique({key[:40]})={u}: yields {ys2}')
+    ctx.ob(rule, 'glob:Glob._format_path/yield-under-unique', not bad2 and len(fps) >= 8, repo.loc('glob', fp.node),
+           'the (marked) path is yielded iff _is_unique(<pathlib-normalised path if self.pathlib else the path>)', f'{len(fps)} rows agree' if not bad2 else bad2[0][:200],
            witness="Path('.').glob(['a', './a']) must not list `a` twice")
     ie = repo.func('glob', 'Glob._is_excluded')
     r = [s for s in ie.node.body if isinstance(s, ast.Return)]
